@@ -28,6 +28,8 @@ func runC12(c *fw.Ctx) {
 	r121(c)
 	r122(c)
 	r123(c)
+	r124(c)
+	r125(c)
 }
 
 // valueProducer classifies the expression giving a BasicLit's Value.
@@ -445,4 +447,125 @@ func r123(c *fw.Ctx) {
 		})
 	}
 	c.Check(found, rule, "printer/func-type-callee-parenthesised", token.NoPos, "the printer must parenthesise a func type used as the callee of a conversion (`func()(x)` parses as a function literal header)")
+}
+
+// R12.4: the comment hook is consulted for every statement that is printed. All statements - list elements,
+// the statement under a label, if/for/switch init and post statements, comm clauses - are printed through
+// one function (the one that switches over every ast.Stmt kind). The lookup of the attached comment group,
+// keyed by that very statement, sits in that function before the switch; in any narrower place (the
+// statement-list loop) a comment attached to a labelled or header statement is never printed.
+func r124(c *fw.Ctx) {
+	const rule = "R12.4"
+	pp := c.Pkg("internal/go/printer")
+	info := pp.TypesInfo
+	var dispatcher *ast.FuncDecl
+	var sw *ast.TypeSwitchStmt
+	var param types.Object
+	for _, fd := range c.Decls() {
+		if c.PkgOfDecl(fd) != pp || fd.Body == nil {
+			continue
+		}
+		// a parameter of type ast.Stmt and a type switch over it with many cases
+		var prm types.Object
+		for _, f := range fd.Type.Params.List {
+			for _, nm := range f.Names {
+				if o := info.Defs[nm]; o != nil && namedIs(o.Type(), "go/ast", "Stmt") {
+					prm = o
+				}
+			}
+		}
+		if prm == nil {
+			continue
+		}
+		for _, st := range fd.Body.List {
+			ts, ok := st.(*ast.TypeSwitchStmt)
+			if !ok || len(ts.Body.List) < 15 {
+				continue
+			}
+			dispatcher, sw, param = fd, ts, prm
+		}
+	}
+	if dispatcher == nil {
+		c.Undecided(rule, "printer/statement-dispatcher", token.NoPos, "the function that prints every kind of statement was not found")
+		return
+	}
+	// lookups of the commented-statement table anywhere in the printer
+	var inDispatcher, elsewhere []string
+	hookOK := false
+	for _, fd := range c.Decls() {
+		if c.PkgOfDecl(fd) != pp || fd.Body == nil {
+			continue
+		}
+		ast.Inspect(fd.Body, func(m ast.Node) bool {
+			ix, ok := m.(*ast.IndexExpr)
+			if !ok {
+				return true
+			}
+			se, ok := unparen(ix.X).(*ast.SelectorExpr)
+			if !ok {
+				return true
+			}
+			fv, ok := info.Uses[se.Sel].(*types.Var)
+			if !ok || !fv.IsField() || fv.Name() != "commentedStmts" {
+				return true
+			}
+			if fd == dispatcher {
+				inDispatcher = append(inDispatcher, exprString(ix))
+				if id, ok := unparen(ix.Index).(*ast.Ident); ok && info.Uses[id] == param && ix.Pos() < sw.Pos() {
+					hookOK = true
+				}
+			} else {
+				elsewhere = append(elsewhere, declName(c, fd))
+			}
+			return true
+		})
+	}
+	c.Check(hookOK, rule, "printer/comment-hook-in-statement-dispatcher", dispatcher.Pos(),
+		"%s prints every kind of statement; the attached-comment lookup keyed by its statement parameter must sit there, before the switch (found in the dispatcher: %v, elsewhere: %v): otherwise comments of labelled statements and of if/for header statements are dropped", declName(c, dispatcher), inDispatcher, elsewhere)
+}
+
+// R12.5: a type parameter list with a single parameter `[P C]` is ambiguous with an array length when
+// `P C` reads as an expression (`[P *C]`, `[P *C | D]`, `[P (C)]`); the printer then writes a trailing
+// comma. Whether it does is decided by following the constraint's leftmost operand: pointer form, binary
+// (union) form - recursively on its left operand - and parenthesised form must all be recognised.
+func r125(c *fw.Ctx) {
+	const rule = "R12.5"
+	fd, p := needDecl(c, rule, "internal/go/printer:combinesWithName")
+	if fd == nil {
+		return
+	}
+	info := p.TypesInfo
+	self, _ := info.Defs[fd.Name].(*types.Func)
+	have := map[string]bool{}
+	binRecursesLeft := false
+	ast.Inspect(fd.Body, func(m ast.Node) bool {
+		cc, ok := m.(*ast.CaseClause)
+		if !ok {
+			return true
+		}
+		for _, e := range cc.List {
+			t := info.TypeOf(e)
+			for _, k := range []string{"StarExpr", "BinaryExpr", "ParenExpr"} {
+				if namedIs(t, "go/ast", k) {
+					have[k] = true
+					if k == "BinaryExpr" {
+						ast.Inspect(cc, func(k2 ast.Node) bool {
+							if call, ok := k2.(*ast.CallExpr); ok && callee(info, call) == types.Object(self) && len(call.Args) == 1 {
+								if se, ok := unparen(call.Args[0]).(*ast.SelectorExpr); ok && se.Sel.Name == "X" {
+									binRecursesLeft = true
+								}
+							}
+							return true
+						})
+					}
+				}
+			}
+		}
+		return true
+	})
+	for _, k := range []string{"StarExpr", "BinaryExpr", "ParenExpr"} {
+		c.Check(have[k], rule, "combinesWithName/recognises-"+k, fd.Pos(),
+			"a constraint whose leftmost form is an *ast.%s can make `[P C]` read as an array length; it must be recognised so that the disambiguating comma is written (`type G[P *C | D] struct{}` otherwise parses back as an array type)", k)
+	}
+	c.Check(binRecursesLeft, rule, "combinesWithName/binary-follows-left-operand", fd.Pos(), "for a union constraint the decision is that of its left operand")
 }
